@@ -98,7 +98,7 @@ static std::vector<std::string> lattice(int level) {
   if (level == 1) { add(INTS, sizeof(INTS) / sizeof(*INTS)); add(DECS, sizeof(DECS) / sizeof(*DECS)); add(STRS, sizeof(STRS) / sizeof(*STRS)); add(RAWS, sizeof(RAWS) / sizeof(*RAWS)); add(BOOLS, 5); add(NULLS, 3); add(TABS, sizeof(TABS) / sizeof(*TABS)); add(TUPS, 5); add(CPLX, 3); }
   else if (level == 2) v = {"0", "1", "(-1)", "64", "256", "9223372036854775807", "(-9223372036854775807 - 1)", "int()", "0.0", "1.5", "(1.0e308 * 10.0)", "((1.0e308 * 10.0) - (1.0e308 * 10.0))", "num()", "9223372036854775807.0",
                              "\"\"", "\"abc def\"", "str()", "raw()", "raw(\"ab\")", "true", "bool()", "null", "tab(3, 1)", "tab()", "tup(1, \"x\")", "tup()", "ii"};
-  else v = {"0", "(-1)", "9223372036854775807", "(-9223372036854775807 - 1)", "int()", "1.5", "(1.0e308 * 10.0)", "\"abc def\"", "null", "tab(3, 1)"};
+  else v = {"0", "(-1)", "9223372036854775807", "(-9223372036854775807 - 1)", "int()", "1.5", "(1.0e308 * 10.0)", "\"abc def\"", "\"\"", "null", "tab(3, 1)"};
   return v;
 }
 struct SweepFamily { uint64_t count; std::function<void(uint64_t, std::string& expr, std::vector<std::string>& args)> make; };
@@ -150,7 +150,7 @@ struct C01 : Profile {
            "tuple accessors applied to arguments from a lattice {0, +-1, 2^k, 2^k+-1, INT64_MIN/MAX, typed and untyped nulls, +-0.0, inf, nan, subnormal, empty / numeric-looking / "
            "escaped strings, empty and null bytes, empty / nested / tuple tables, null and structured tuples, complex} (plain seeded generation, counted as vocab_texts); (b) "
            "generated structured programs; (c) the first runs of every batch are a deterministic sweep: every built-in with 1, 2 and 3 arguments, every binary and unary operator, every method and accessor over "
-           "argument lattices of 73 / 27 / 10 values, each statement once with the operands written in place and once with the operands held in variables (plain enumeration, counted as sweep_texts). Faults: the stream is damaged at a token (byte flip, deletion, duplication, replacement, swap, stray structural words, EOF inside a "
+           "argument lattices of 73 / 27 / 11 values, each statement once with the operands written in place and once with the operands held in variables (plain enumeration, counted as sweep_texts). Faults: the stream is damaged at a token (byte flip, deletion, duplication, replacement, swap, stray structural words, EOF inside a "
            "string or comment, splice with the tail of another program) and delivered in seeded fragments (SimReader), whole (C API) or as a file to the bloc command. Every "
            "statement of a vocabulary program also runs as its own unit so that one error does not hide the next. Oracle (monitor M): the run ends as ok, ParseError or "
            "RuntimeError; no signal, no AddressSanitizer / UndefinedBehaviorSanitizer report, no other exception type at the library boundary (std::bad_alloc = out of the "
